@@ -103,6 +103,18 @@ CHECKS = {
         "text": "Generated trees over an alphabet of NUL, backslash, escape-looking text, regex metacharacters, non-ASCII and astral code points with boundary 64-bit indices, plus an enumeration of every operation over an 18-string x 7-index pool: the folded value, the value of the BackendZ3 translation under the assignment, and the value computed under a cached model (ModelCache.eval_ast) must all equal the reference; every string constant must reach Z3 as exactly its code points.",
         "note": "A disagreement between the two references would be counted and not reported; none occurs. Strings above U+2FFFF are outside SMT-LIB and not generated.",
     },
+    "C21": {
+        "level": "exploration",
+        "technique": "bounded-exhaustive enumeration + property-based testing: every pair of canonical strided intervals of width 1-3 (and a third / all at width 4) per transfer function, generated wide intervals with sampled members; containment of concrete results in the member set of the abstract result",
+        "text": "For every binary operation, comparison, unary operation, extension and extraction of StridedInterval, all operand pairs over all canonical intervals of width 1-3 are enumerated (width 4: a seed-selected third in the quick tier, all in the thorough tier) and every concrete result op(x,y) over the operands' members must lie in the member set of the abstract result, computed from (bits, stride, lb, ub) alone; comparisons must contain every truth value that occurs. Generated intervals at 8-64 bits are checked on sampled members. Exhaustive on the enumerated sub-domain, exploration beyond it.",
+        "note": "Signed division is an open finding (floor rounding pinned by the repository's tests): its 34 300 failing operand pairs of width 1-4 are listed literally with the wrong result observed, any other failure is a violation, and the operation is excluded (counted) at wide widths.",
+    },
+    "C22": {
+        "level": "exploration",
+        "technique": "bounded-exhaustive enumeration + property-based testing: all pairs (width 1-3, sampled/all at width 4) and triples (width 2, sampled/all at width 3) of canonical strided intervals for join/meet/widen, all canonical intervals of width 1-4 for the queries; member-set oracle",
+        "text": "union / least_upper_bound / pseudo_join / widen must contain every operand, intersection every common member; eval(n), min/max (signed and unsigned), cardinality, solution(v) for every v, is_empty/is_integer/is_top must agree exactly with the member set computed from (bits, stride, lb, ub). Enumerated over all canonical intervals of small width, generated with sampled members at 8-64 bits.",
+        "note": "Off-lattice upper bounds (writable by a caller, meaning undocumented) are outside the oracle; widen is only checked for containment.",
+    },
     "C26": {
         "level": "exploration",
         "technique": "property-based testing: generated constraint sets pinning boundary values of every sort; every value returned by eval/batch_eval/min/max re-asserted in an independent Z3 query built from the IR",
